@@ -410,7 +410,7 @@ class GroupedType(BaseDataType):
 class AddressType(OctetStringType):
     @abc.abstractmethod
     def __init__(self, data, vendor_id=None):
-        AddressType.parser_data(self, data)
+        self.parser_data(data)
         OctetStringType.__init__(self, data, vendor_id)
 
 
